@@ -43,7 +43,7 @@ SPEC = {
                    "thorough": {"evaluations": 60000, "oracle_evals": 1000000, "encodings": 60000,
                                 "fibers_scanned": 300000, "lookup_queries": 300000, "sizes_checked": 300000,
                                 "multiword_mask_fibers": 300}},
-    "budget_s": {"quick": 40, "thorough": 420},
+    "budget_s": {"quick": 150, "thorough": 900},
     "timeout_s": {"quick": 600, "thorough": 1800},
     "assumptions": [
         "formats U, C, B only (statement); leaf default 0, integer coordinates, integer leaf values, every declared extent "
